@@ -45,7 +45,8 @@ def snap(h):
     nodes = {}
     for n in h:
         d = h[n]
-        nodes[n.idx] = {"op": enc(d.op), "parent": d.parent.idx if d.parent is not None else None,
+        nodes[n.idx] = {"op": enc(d.op), "parent": (d.parent.idx if type(d.parent) is Node else repr(type(d.parent)))
+                        if d.parent is not None else None,
                         "children": [c.idx for c in h.children(Node(n.idx))],
                         "metadata": json.loads(json.dumps(d.metadata, sort_keys=True, default=repr)),
                         "nout": h.num_out_ports(Node(n.idx)), "nin": h.num_in_ports(Node(n.idx))}
@@ -168,7 +169,14 @@ def check_insert(ctx, case, stratum="insert_hugr"):
             ctx.feat("feature:default-parent")
             mapping = A.insert_hugr(B)  # "parent: defaults to the root"
         else:
-            mapping = A.insert_hugr(B, Node(parent))
+            # the parent as a Node, or as something that merely can be treated as one (what the builders are)
+            from vf.gen.histories import as_node
+
+            if case["parent"] % 2:
+                ctx.feat("feature:parent-given-as-ToNode")
+                mapping = A.insert_hugr(B, as_node(Node(parent)))
+            else:
+                mapping = A.insert_hugr(B, Node(parent))
     except ParentBeforeChild:
         ctx.count("refused:ParentBeforeChild")
         return False
